@@ -158,7 +158,9 @@ class compile_order_by:
     modifies = ['fields:c_expr', 'fields:name', 'fields:is_aggregate']
     native = False
     assumes = ['ATTRS_PRESENT', 'compiled nodes compare by ==; list.index finds the first equal element (merge soundness is C03 EvalNode.__eq__)']
-    note = 'what each key denotes (position / name / expression) is NOT carried by this contract: the invariant with order_key() did not discharge within the budget (nested pair handles under a dict lookup); bounded evidence in h03, h05, h07'
+    note = ('what a key given by position or by name denotes is NOT carried by this contract (the invariant with order_key() did not discharge within the budget: nested pair '
+            'handles under a dict lookup; bounded evidence in h03, h05, h07); that a key which is an expression (neither a position nor a bare column) sorts by a target '
+            'compiled from that very expression is carried by the loop invariant (conjunct 10) - its restatement over the returned slice did not discharge and is not claimed as a postcondition')
     raises = {'CompilationError': None}
     loops = {0: dict(fields=['c_expr', 'name', 'is_aggregate'],
                      inv=lambda order_by, c_targets, new_targets, c_target_expressions, order_spec, _i:
@@ -171,6 +173,8 @@ class compile_order_by:
                      and all(order_spec[j][1] == order_by[j].ordering for j in range(_i))
                      and all(isinstance(order_spec[j][0], int) for j in range(_i))
                      and all(0 <= order_spec[j][0] < len(new_targets) for j in range(_i))
+                     and all(isinstance(order_by[j].column, int) or isinstance(order_by[j].column, ext('beanquery.parser.ast.Column'))
+                             or new_targets[order_spec[j][0]].c_expr == compiled_of(order_by[j].column) for j in range(_i))
                      and inputs_unchanged('c_expr', 'name', 'is_aggregate'))}
     ensures = [
         ('one-sort-key-per-clause-with-its-direction', lambda order_by, result: len(result[1]) == len(order_by)
